@@ -360,7 +360,8 @@ class G:
     o = S.ReducerOptionsT()
     o.keepDims = keep
     sh = self.shape[x]
-    osh = tuple((1 if i in axes else d) for i, d in enumerate(sh) if keep or i not in axes)
+    axes_n = [a % len(sh) for a in axes]
+    osh = tuple((1 if i in axes_n else d) for i, d in enumerate(sh) if keep or i not in axes_n)
     y = self.act('mean', osh)
     self.op(BO.MEAN, [x, ax], [y], o, S.BuiltinOptions.ReducerOptions)
     return y
@@ -480,6 +481,8 @@ def rand_graph(g, rng, n_ops=6, allow_unsupported=True, allow_emb=True,
       cands += ['conv', 'conv', 'dwconv', 'tconv', 'avgpool']
       if allow_unsupported:
         cands.append('maxpool')
+    if r == 0:
+      cands = [c for c in cands if c in ('tanh', 'logistic', 'gelu', 'add', 'sub', 'mul', 'relu', 'abs', 'neg', 'leaky_relu')]
     if only is not None:
       cands = [c for c in cands if c in only]
       if not cands:
@@ -536,7 +539,7 @@ def rand_graph(g, rng, n_ops=6, allow_unsupported=True, allow_emb=True,
       elif mode < 0.8:
         cs = rng.random()
         # constant operand: a row, a full tensor, or (as "x * 0.5" / "1 - x" converts) a rank-0 / one-element scalar
-        cshape = (sh[-1],) if cs < 0.4 else sh if cs < 0.75 else () if cs < 0.9 else (1,)
+        cshape = () if r == 0 else (sh[-1],) if cs < 0.4 else sh if cs < 0.75 else () if cs < 0.9 else (1,)
         u = g.const(k + '_c', np.asarray(g.w(cshape), dtype=np.float32).reshape(cshape))
         if len(cshape) == 0 or cshape == (1,):
           g.classes.add('scalar_constant')
@@ -564,8 +567,18 @@ def rand_graph(g, rng, n_ops=6, allow_unsupported=True, allow_emb=True,
     elif k == 'mean':
       if r < 2:
         continue
-      ax = int(rng.integers(1, r))
-      outs = [g.mean(t, [ax], keep=bool(rng.random() < 0.5))]
+      mr = rng.random()
+      if mr < 0.12:
+        # global reduction: a rank-0 (or all-ones) runtime tensor, as a score / loss output has
+        outs = [g.mean(t, list(range(r)), keep=bool(rng.random() < 0.4))]
+        g.classes.add('global_mean')
+      elif mr < 0.3 and r >= 3:
+        outs = [g.mean(t, [1, 2], keep=bool(rng.random() < 0.5))]      # spatial mean over two axes (global average pooling)
+      elif mr < 0.4:
+        outs = [g.mean(t, [-1], keep=bool(rng.random() < 0.5))]        # negative axis
+      else:
+        ax = int(rng.integers(1, r))
+        outs = [g.mean(t, [ax], keep=bool(rng.random() < 0.5))]
     elif k == 'concat':
       u = pick(lambda u: g.shape[u] == sh)
       xs = [t, u] if rng.random() < 0.8 else [t, t]
